@@ -341,13 +341,19 @@ class GenSinkPart:
         w = ec.gen_workload(rng, flows=PIPE_FLOWS, n_max=8, sizes=PIPE_SIZES, burst_p=0.45)
         npk = len(w["packets"])
         els = [rng.choice(PIPE_ELEMS) for _ in range(n)]
+        twin = rng.random() < 0.12
+        if twin:
+            # the same kind of element twice: whatever an element keeps ON THE PACKET (Wire: current_time, Port: perhop_time)
+            # is overwritten by its second instance -- visible only in a composition
+            k = rng.choice(["wire", "wire", "port"])
+            els[0] = els[-1] = k
         one_wire = els.count("wire") == 1
         eids = ["p1", "sw3", None]
         rng.shuffle(eids)
         stages = []
         for el in els:
             if el == "wire":
-                style = rng.choice(["const", "rand", "zero"])
+                style = "const" if twin else rng.choice(["const", "rand", "zero"])
                 if style == "const":
                     ds = [rng.choice(PIPE_DELAYS[1:])] * npk
                 elif style == "zero":
